@@ -64,6 +64,17 @@ pub fn run(suite: &str, a: &[&str]) -> Option<String> {
         "rr_contains_pt" => sb(rr(a).contains(pt(a[12], a[13]))).to_string(),
         "rr_points" => spts(rr(a).points()),
         "rr_offset" => srr(&rr(a).offset(i(a[12]))),
+        // confine + contains bitmap (margin 2) + points + bounding box in one line
+        "rr_all" => {
+            let r = rr(a);
+            format!(
+                "C {} B {} P {} BB {}",
+                srad(&r.confine_radii().corners),
+                bitmap(window(&r.rectangle, 2), |p| r.contains(p)),
+                spts(r.points()),
+                src(r.bounding_box())
+            )
+        }
         _ => return search(suite, a),
     })
 }
@@ -106,6 +117,57 @@ pub fn search(suite: &str, a: &[&str]) -> Option<String> {
                 ));
             }
             format!("OK {}", got.len())
+        }
+        // exhaustive sweep on the implementation: every combination of the 8 radius components over a value set,
+        // for one size: points() == row-major filter of contains() over box+1, nothing outside the box,
+        // confined radii fit, rows and columns contiguous.   p_rr_sweep w h k
+        "p_rr_sweep" => {
+            let (w, h, k) = (u(a[0]), u(a[1]), u(a[2]));
+            let vals: &[u32] = match k { 0 => &[0, 1, 2], 1 => &[0, 1, 2, 3], 2 => &[0, 1, 3, 5, 8], _ => &[0, 2, 4, 7, 13] };
+            let n = vals.len();
+            let total = n.pow(8);
+            let rect = Rectangle::new(Point::new(-3, 2), Size::new(w, h));
+            let (x0, y0, x1, y1) = window(&rect, 1);
+            let mut cnt = 0usize;
+            for idx in 0..total {
+                let mut t = idx;
+                let mut v = [0u32; 8];
+                for j in 0..8 { v[j] = vals[t % n]; t /= n; }
+                let r = RoundedRectangle::new(rect, CornerRadii {
+                    top_left: Size::new(v[0], v[1]), top_right: Size::new(v[2], v[3]),
+                    bottom_right: Size::new(v[4], v[5]), bottom_left: Size::new(v[6], v[7]) });
+                if !radii_sums_ok(&r.confine_radii().corners, rect.size) {
+                    return Some(format!("FAIL confined radii exceed a side: {}", srr(&r)));
+                }
+                let mut expect = Vec::new();
+                let ww = (x1 - x0) as usize;
+                let mut grid = vec![false; ww * (y1 - y0) as usize];
+                for y in y0..y1 {
+                    let mut state = 0;
+                    for x in x0..x1 {
+                        let p = Point::new(x, y);
+                        let c = r.contains(p);
+                        if c {
+                            if !rect.contains(p) { return Some(format!("FAIL contains() true outside the box at {:?}: {}", p, srr(&r))); }
+                            expect.push(p);
+                            grid[(y - y0) as usize * ww + (x - x0) as usize] = true;
+                        }
+                        state = match (state, c) { (0, true) => 1, (1, false) => 2, (2, true) => return Some(format!("FAIL row {} not contiguous: {}", y, srr(&r))), (s, _) => s };
+                    }
+                }
+                for x in x0..x1 {
+                    let mut state = 0;
+                    for y in y0..y1 {
+                        let c = grid[(y - y0) as usize * ww + (x - x0) as usize];
+                        state = match (state, c) { (0, true) => 1, (1, false) => 2, (2, true) => return Some(format!("FAIL column {} not contiguous: {}", x, srr(&r))), (s, _) => s };
+                    }
+                }
+                if !r.points().eq(expect.iter().copied()) {
+                    return Some(format!("FAIL points() != filter contains: {}", srr(&r)));
+                }
+                cnt += 1;
+            }
+            format!("OK {}", cnt)
         }
         _ => return None,
     })
